@@ -8,8 +8,11 @@ CONSTANTS
   ConsSet <- BoolSet
   MaxSteps = 3
   Emit = TRUE
+  Refusals <- NoRefusals
   MatChange = FALSE
   Mutant = "none"
+INVARIANT LatticeAdmissible
+INVARIANT RefusedKeeps
 INVARIANT Motion
 INVARIANT Prescribed
 INVARIANT UpdateRel
